@@ -1027,3 +1027,178 @@ def returns_under(an, f, env):
             if (i, s) not in c.exc_edges:
                 stack.append(s)
     return out
+
+
+# ----------------------------------------------- flow-sensitive substitution
+def _pm(f):
+    pm = getattr(f, '_pmap', None)
+    if pm is None:
+        pm = parent_map(f.node)
+        f._pmap = pm
+    return pm
+
+
+def reaching_value(an, f, name_node):
+    """The expression bound to the local `name_node` (an ast.Name in f) by
+    the one assignment that can reach this use; None when several (or no)
+    bindings reach it, or the binding has no plain value."""
+    c = an.cfg(f)
+    pm = _pm(f)
+    n = name_node
+    use = []
+    while n is not None:
+        use = c.copies.get(id(n), [])
+        if use:
+            break
+        n = pm.get(n)
+    if not use or name_node.id in f.params:
+        return None
+    defs = stores_to(f, name_node.id)
+    if not defs:
+        return None
+    starts = {}
+    for st, val in defs:
+        ids = c.copies.get(id(st), [])
+        dn = [c.done_node[id(st)]] if id(st) in c.done_node else \
+            [i for i in ids if c.nodes[i].kind in ('loop',)]
+        starts[id(st)] = (st, val, dn or ids, ids)
+    reaching = []
+    for key, (st, val, begin, ids) in starts.items():
+        blocked = set()
+        for k2, (_, _, b2, ids2) in starts.items():
+            if k2 != key:
+                blocked |= set(b2)
+        blocked -= set(use)
+        hit = False
+        for b in begin:
+            if b in use:
+                hit = True
+                break
+            r = c.reachable(start=b, removed=blocked)
+            if any(u in r for u in use):
+                hit = True
+                break
+        if hit:
+            reaching.append((st, val))
+    # a use that no binding reaches through the CFG (dead code) is unknown
+    if len(reaching) != 1 or reaching[0][1] is None or \
+            isinstance(reaching[0][1], ast.Lambda):
+        return None
+    return reaching[0][1]
+
+
+def flow_canon(an, f, e, depth=4):
+    """canon() with flow-sensitive replacement of locals: a name bound more
+    than once is replaced by the binding that reaches this very use."""
+    import copy
+    if depth == 0:
+        return ' '.join(src(e).split())
+    repl = {}
+    for x in ast.walk(e):
+        if isinstance(x, ast.Name) and isinstance(x.ctx, ast.Load):
+            v = reaching_value(an, f, x)
+            if v is not None:
+                repl[id(x)] = v
+
+    class T(ast.NodeTransformer):
+        def visit_Name(self, node):
+            v = repl.get(id(node))
+            if v is None:
+                return node
+            # the value's own names are resolved where the value stands
+            txt = flow_canon(an, f, v, depth - 1)
+            return ast.parse(txt, mode='eval').body
+    # the transformer must see the original nodes (ids), so no deepcopy of
+    # e before visiting: rebuild instead
+    new = T().visit(_clone_keep_ids(e, repl))
+    return ' '.join(src(new).split())
+
+
+def _clone_keep_ids(e, repl):
+    """Deep copy of e in which the copies of the names in repl carry the
+    original node's id mapping (repl is re-keyed in place)."""
+    import copy
+    mapping = {}
+
+    def cp(n):
+        if isinstance(n, ast.AST):
+            new = n.__class__()
+            for k, v in ast.iter_fields(n):
+                setattr(new, k, cp(v))
+            for a in ('lineno', 'col_offset', 'end_lineno',
+                      'end_col_offset'):
+                if hasattr(n, a):
+                    setattr(new, a, getattr(n, a))
+            if id(n) in repl:
+                mapping[id(new)] = repl[id(n)]
+            return new
+        if isinstance(n, list):
+            return [cp(x) for x in n]
+        return n
+    out = cp(e)
+    repl.update(mapping)
+    return out
+
+
+def iteration_outcomes(an, f, loop, env, marks=None):
+    """What one iteration of `loop` can do when its conditions evaluate as
+    env says: ('continue',) ('break',) ('end',) ('return',)
+    ('raise', class), plus ('mark', label) for every statement node id in
+    `marks` ({node id: label}) passed on the way."""
+    c = an.cfg(f)
+    head = c.stmt_node[id(loop)]
+    out = set()
+    seen = set()
+    stack = [s for s in c.succ[head] if c.nodes[s].kind == 'true']
+    marks = marks or {}
+    while stack:
+        i = stack.pop()
+        if i in seen:
+            continue
+        seen.add(i)
+        if i == head:
+            out.add(('end',))
+            continue
+        n = c.nodes[i]
+        if i in marks:
+            out.add(('mark', marks[i]))
+        if n.kind == 'test':
+            v = eval_cond(f, n.ast, env)
+            if v is UNKNOWN:
+                stack.extend(s for s in c.succ[i]
+                             if (i, s) not in c.exc_edges)
+            else:
+                stack.extend(c.branch(n, bool(v)))
+            continue
+        if n.kind == 'continue':
+            out.add(('continue',))
+            continue
+        if n.kind == 'break':
+            out.add(('break',))
+            continue
+        if n.kind == 'raise_stmt':
+            out.add(('raise', raise_class(an, f, n.ast)))
+            continue
+        if n.kind == 'return' or i == c.exit:
+            out.add(('return',))
+            continue
+        if not inside(loop, n) and n.ast is not None:
+            out.add(('end',))
+            continue
+        for s in c.succ[i]:
+            if (i, s) not in c.exc_edges:
+                stack.append(s)
+    return out
+
+
+def kind_env(holder, present):
+    """Environment for the three branch kinds of one cascade line:
+    `holder` is the text of the mapping ('branch_set'), present maps
+    'DevelopmentBranch' / 'StabilizationBranch' / 'HotfixBranch' to a bool.
+    Truthiness and None-ness are set consistently."""
+    env = {}
+    for cls, p in present.items():
+        x = '%s[%s]' % (holder, cls)
+        env[x] = p
+        env[x + ' is None'] = not p
+    return env
